@@ -74,9 +74,9 @@ prop("C02", ["prims.go", "c02a.go"],
 
 # ------------------------------------------------------------------------------------------------ C13
 prop("C13", ["prims.go", "c13.go"],
-     [run("check", "harnessC13", ["match", "mismatch", "empty-checksum", "nil-hash", "open-fails"], native="check",
-          quick={"witness": 16, "params": {"bytes": 4}, "bound": "digest <= 4 bytes and checksum <= 5 bytes of BitVec 8, symbolic lengths; Hash nil or not; file open failing or not"},
-          thorough={"witness": 32, "params": {"bytes": 8}, "bound": "digest <= 8 bytes and checksum <= 9 bytes of BitVec 8, symbolic lengths; Hash nil or not; file open failing or not"}),
+     [run("check", "harnessC13", ["match", "mismatch", "empty-checksum", "nil-hash", "open-fails", "checked-twice"], native="check",
+          quick={"witness": 16, "params": {"bytes": 4}, "bound": "digest <= 4 bytes and checksum <= 5 bytes of BitVec 8, symbolic lengths; Hash nil or not; file open failing or not; then a second check on the same SecureConfig with the file's digest arbitrary again (unchanged or replaced); the hash model remembers what was fed since the last Reset"},
+          thorough={"witness": 32, "params": {"bytes": 8}, "bound": "digest <= 8 bytes and checksum <= 9 bytes of BitVec 8, symbolic lengths; Hash nil or not; file open failing or not; second check as in quick"}),
       run("start-order", "harnessC13start", ["launched", "refused", "runnerfunc-refused", "path-through-symlink"], files=WORLD,
           quick={"bound": "whole Client.Start composed with a real plugin, launch through exec.Cmd and through a RunnerFunc, SecureConfig with digest <= 2 and checksum <= 3 symbolic bytes: the process is launched iff the checksum matches the digest of the file the kernel executes; command path plain, or through a symbolic link followed by '..' with a decoy (digest = the checksum) at the lexically cleaned path"})],
      ["hash.Hash is a harness implementation returning an arbitrary digest (the hash function itself is outside the claim)", "os.Open/io.Copy/File.Close modelled: open may fail"],
@@ -244,8 +244,8 @@ prop("C06", ["prims.go", "c06.go"],
      [run("routing", "harnessC06", ["dispensed", "routed"], dpor=True,
           quick={"max_reversals": 2, "bound": "two Dispense calls + two symbolic distinct IDs accepted on the host and dialled from the plugin within a symbolic gap < 5 s in either order; all schedules with <= 2 reversals"},
           thorough={"max_reversals": 3, "max_wall_s": 1700, "bound": "as quick with <= 3 reversals (260 747 schedules, 14.7 M solver queries, 13 min on 16 cores when measured)"}),
-      run("after-timeout", "harnessC06afterTimeout", ["lonely-on-host", "lonely-on-plugin", "timed-out", "abandoned-dial", "routed"],
-          quick={"bound": "history prefix: one Dispense, then an Accept(id0) nobody dials on the host or the plugin broker (times out), optionally a stream opened by either end and dropped before its ID was written; afterwards a second Dispense and one symbolic ID accepted/dialled in either direction, either order, symbolic gap < 5 s; canonical schedule, symbolic clock"})],
+      run("after-timeout", "harnessC06afterTimeout", ["lonely-on-host", "lonely-on-plugin", "timed-out", "abandoned-dial", "routed"], dpor=True,
+          quick={"max_reversals": 1, "bound": "history prefix: one Dispense, then an Accept(id0) nobody dials on the host or the plugin broker (times out), optionally a stream opened by either end and dropped before its ID was written; afterwards a second Dispense and one symbolic ID accepted/dialled in either direction, either order, symbolic gap < 5 s; symbolic clock, all schedules with <= 1 reversal"})],
      [YAMUX, NETRPC], ["yamux", "net/rpc", "encoding/binary"],
      "byte transport on a stream (yamux contract); 3 IDs; more than 1 reversal in quick",
      text="Bounded symbolic model checking of the real MuxBroker (Accept/Dial/Run/NextId/AcceptAndServe), dispenseServer.Dispense, RPCClient.Dispense and serve over paired-session yamux and net/rpc models, all schedules up to the reversal bound: Accept(n) returns the far end of the stream Dial(n) returned, and each Dispense reaches the server object created for that dispense.",
@@ -269,10 +269,11 @@ prop("C08", ["prims.go", "c08.go"],
       run("both-directions", "harnessC08seq", ["established", "host-accepts", "plugin-accepts", "dial-first", "accept-first"], dpor=True,
           quick={"max_reversals": 2, "params": {"k": 1}, "bound": "one establishment in either direction (plugin accepts / host dials, or host accepts / plugin dials), accept-first or dial-first, symbolic gap and ID; all schedules with <= 2 reversals"},
           thorough={"max_reversals": 1, "params": {"k": 2}, "max_wall_s": 1500, "bound": "two sequential establishments, each in either direction and either order, distinct symbolic IDs; all schedules with <= 1 reversal"}),
-      run("second-connection", "harnessC08second", ["both-established", "host-accepts", "plugin-accepts", "dial-first", "accept-first"],
-          quick={"bound": "two establishments in the SAME direction (plugin accepts both, or host accepts both) on distinct symbolic IDs, each accept-first or dial-first with a symbolic gap < 5 s; the first ID's listener keeps being served (Accept in a loop, as a gRPC server does) while the second is established; canonical schedule"}),
+      run("second-connection", "harnessC08second", ["both-established", "host-accepts", "plugin-accepts", "dial-first", "accept-first"], dpor=True,
+          quick={"max_reversals": 1, "bound": "two establishments in the SAME direction (plugin accepts both, or host accepts both) on distinct symbolic IDs, each accept-first or dial-first with a symbolic gap < 5 s; the first ID's listener keeps being served (Accept in a loop, as a gRPC server does) while the second is established; all schedules with <= 1 reversal"}),
       run("same-id-both-ways", "harnessC08sameID", ["established", "host-accepts-first", "plugin-accepts-first", "dial-first", "accept-first"],
-          quick={"bound": "two establishments with ONE symbolic ID, the second in the opposite direction and starting a symbolic pause in [0, 10 s] after the first completed (timers armed by the first still running), each accept-first or dial-first with a symbolic gap < 5 s; canonical schedule, symbolic clock"})],
+          quick={"bound": "two establishments with ONE symbolic ID, the second in the opposite direction and starting a symbolic pause in [0, 10 s] after the first completed (timers armed by the first still running), each accept-first or dial-first with a symbolic gap < 5 s; canonical schedule, symbolic clock"},
+          thorough={"dpor": True, "max_reversals": 1, "max_wall_s": 1500, "bound": "as quick, and all schedules with <= 1 reversal (6 856 schedules, 100 s when measured)"})],
      [YAMUX, "the two brokers talk through an in-model FIFO streamer pair"], ["yamux", "broker stream"],
      "more than two establishments; bytes flowing on earlier connections (their streams staying open is checked); more reversals than the bound",
      text="Bounded symbolic model checking of the real mux branch of GRPCBroker (Accept, listenForKnocks, knock, muxDial, Run) with both real grpcmux muxers and blocked listeners over a yamux model, all schedules of the goroutines of one establishment up to the reversal bound: the stream dialled for n is delivered by the listener returned by Accept(n), the dial succeeds, and the main accept loop and session keep working.",
